@@ -15,7 +15,7 @@ number has (`normal_mk`) — it restricts representations, not numbers.
 import CtyModel.Lemmas.GoctyRoundtrip
 import CtyModel.Lemmas.GoctyFloat
 import CtyModel.Lemmas.GoctySched
-import CtyModel.Lemmas.d18Object
+import CtyModel.Lemmas.d18Compose
 import CtyModel.Lemmas.d18Num
 import CtyModel.Lemmas.d18Cval
 import CtyModel.Lemmas.d18ToCty
@@ -647,6 +647,33 @@ theorem roundtrip_untagged_counterexample (S : Sched) :
     toCty id g (.object ["a"] [.number] [false]) = .ok ⟨.object ["a"] [.number] [false], .smap ["a"] [.n (Num.ofInt 1)]⟩ ∧
     fromCtyS S ⟨.object ["a"] [.number] [false], .smap ["a"] [.n (Num.ofInt 1)]⟩ T = .ok (.struct ["a", ""] [.int 1, .int 0]) := by
   exact ⟨by decide, rfl, rfl, (object_ok_iff S _ _ _ _ _ _ _ rfl _).mpr ⟨by decide, [.int 1], rfl, rfl⟩⟩
+
+/-- "Exact or refuses" composes (for every schedule): a list is decoded into a slice / an array, a
+map into a Go map, a tuple into a struct iff every member is decoded into the element / field type
+(arrays and tuples: and the lengths agree), and the result holds exactly the decoded members. -/
+theorem members_ok_iff (S : Sched) (ety : Ty) (etys : List Ty) (ks : List String) (cs : List Payload) (n : Nat) (E : GoTy)
+    (tags : List String) (tys : List GoTy) (g : GoVal) :
+    (fromCtyS S ⟨.list ety, .seq cs⟩ (.slice E) = .ok g ↔ ∃ gs, fromCtyL S ety cs E = gs.map Res.ok ∧ g = .slice gs) ∧
+    (fromCtyS S ⟨.list ety, .seq cs⟩ (.array n E) = .ok g ↔
+      cs.length = n ∧ ∃ gs, fromCtyL S ety cs E = gs.map Res.ok ∧ g = .arr gs) ∧
+    (fromCtyS S ⟨.map ety, .smap ks cs⟩ (.map E) = .ok g ↔ ∃ gs, fromCtyL S ety cs E = gs.map Res.ok ∧ g = .map ks gs) ∧
+    (fromCtyS S ⟨.tuple etys, .seq cs⟩ (.struct tags tys) = .ok g ↔
+      tys.length = etys.length ∧ ∃ gs, fromCtyZ S [] etys cs tys = gs.map Res.ok ∧ g = .struct tags gs) :=
+  ⟨fromCtyP_list_slice_ok_iff S ety cs (.slice E) E rfl g, fromCtyP_list_array_ok_iff S ety cs (.array n E) n E rfl g,
+   fromCtyP_map_ok_iff S ety ks cs (.map E) E rfl g, fromCtyP_tuple_ok_iff S etys cs (.struct tags tys) tags tys rfl g⟩
+
+/-- … so a refusal at depth is a refusal of the whole: a list (of modelled members) one of whose members
+is refused — an unknown, a null into a non-nilable element, a number that does not fit — is refused with an
+error, at any pointer depth of the target; the member is not skipped. -/
+theorem errors_nested_member (S : Sched) (ety : Ty) (cs : List Payload) (T : GoTy) (E : GoTy)
+    (hT : T.base = .slice E) (hm : modelledL ety cs = true) (c : Payload) (hc : c ∈ cs)
+    (he : ∃ e, fromCtyP S [] ety c E = .err e) : ∃ e, fromCtyS S ⟨.list ety, .seq cs⟩ T = .err e :=
+  fromCtyP_list_member_refused S ety cs T E hT hm c hc he
+
+/-- for instance an unknown inside a list of numbers, into `*[]int8` -/
+example (S : Sched) : ∃ e, fromCtyS S ⟨.list .number, .seq [.n (Num.ofInt 1), .unk .unref]⟩ (.ptr (.slice (.int .w8 true))) = .err e :=
+  errors_nested_member S .number _ _ (.int .w8 true) rfl (by decide) (.unk .unref) (by simp)
+    ⟨_, fromCtyP_unknown S [] .number .unref (.int .w8 true) rfl⟩
 
 /-- Not demanded by the property (its "never panics" clause is about `FromCtyValue`), recorded because
 the audit asked for it: `ToCtyValue` does not panic on any Go value that holds no NaN (and whose
